@@ -77,6 +77,9 @@ def oracle(case):
     base = 20000 if fam == 'clayton' else 8000
     n = int(base * case['n_scale'])
     chunk = case.get('chunk')
+    if case['how'] == 'set' and case['seed'] % 2 and not chunk:
+        # another parameterised copula of the family drew the same uniforms (same seed, same size) a moment ago
+        S.interleave_sibling(cop, fam, theta, np.array([[0.3, 0.6], [0.5, 0.5]]), random_state=case['seed'], n_sample=n)
     if chunk:
         n = min(n, 3000) // chunk * chunk
         parts = []
